@@ -26,13 +26,13 @@ CLAIMED.update({
                   'on_lr_is_preserved + optimizer alias, eliminate_outer, the join arm of PropagateEmptyRelation over the named '
                   'locals left_empty/right_empty incl. NULL-padded and pass-through replacements, push_down_join limits) are '
                   'extracted from MIR and each enabled rewrite must be an identity in a brute-force relational model. A wrong '
-                  'entry is exactly "filter pushed below the null-supplying side". The rewrites' mechanics and all other '
+                  'entry is exactly "filter pushed below the null-supplying side". The mechanics of the rewrites and all other '
                   'rules are not decided.'),
     },
     'C05': {
         'technique': 'static analysis: finite-domain constant propagation over MIR + reference join model bounds + cross-table laws',
         'level': ('Static, exhaustive over the ten join types (x JoinSide): final-emission tables of hash/NLJ/symmetric/piecewise '
-                  'joins lie between the model's must/may bounds, symmetric == asymmetric under negate+swap, empty-build/empty-map '
+                  'joins lie between the must/may bounds of the model, symmetric == asymmetric under negate+swap, empty-build/empty-map '
                   'short-circuits only where the model result is empty, probe-side tables stream a side that is in the output, '
                   'build_join_schema reads exactly the sides the model outputs and adds a non-nullable mark column only for mark '
                   'joins. Hash maps, bitmaps, cursors, filters and batching are not decided.'),
@@ -40,7 +40,7 @@ CLAIMED.update({
     'C28': {
         'technique': 'static analysis: finite-domain constant propagation over MIR; cross-table consistency of sibling decision tables',
         'level': ('Static, exhaustive per join type: a join operator (Hash, NLJ, SMJ, PWMJ) may declare a side order-preserving '
-                  'only if it is that operator's probe side and the operator appends no rows of that type after the probe phase '
+                  'only if it is the probe side of that operator and the operator appends no rows of that type after the probe phase '
                   '(its own tables); RepartitionExec declares order only under preserve_order or one input partition. Equivalence '
                   'classes, constants, monotonicity and partitioning keys are value-dependent and not decided.'),
     },
